@@ -50,6 +50,7 @@ void sbuf_cut(struct sbuf *s, int len);
 #define RE_ICASE		1
 #define RE_NOTBOL		2
 #define RE_NOTEOL		4
+#define RE_CONT		8	/* the string continues a longer one: the byte before it may be examined */
 /* regular expression sets: searching for multiple regular expressions */
 struct rset *rset_make(int n, char **pat, int flg);
 int rset_find(struct rset *re, char *s, int n, int *grps, int flg);
